@@ -165,4 +165,8 @@ def run(ctx):
         run.inst("C19.A4", "single-series-formula", len(rs) == 1 and phi_plus(rs[0]),
                  "apply_coefficients has %d result formula(s); %s" % (len(rs), "phi + series(coefficients)" if len(rs) == 1 and phi_plus(rs[0]) else "an input range is special-cased or the shape is not phi + correction"),
                  where(fa.fn["span"]))
+    # A5: every periodic wrap of a longitude moves by the full period
+    from .wrap_common import check_wraps
+    nw = check_wraps(facts, run, "C19.A5", ("a5::core::coordinate_transforms::", "a5::core::cell::", "a5::coordinate_systems::"))
+    run.floor("C19.A5", "longitude wrap sites", nw, 2)
     run.floor("C19", "rule instances", len(run.instances), 11)
